@@ -75,6 +75,9 @@ def run(run_, tier):
     install_std(it3)
     run_.replay_for("states.", lambda w: {"script": "c09_cache.py", "args": [json.dumps(w or {})]})
     c09.protocol(run_, it3, "C09")
+    # Engine D: the closed-form cotangent projection for ALL dimensions n, k and every metric object satisfying the matrix contract
+    from . import generic_systems
+    generic_systems.run_generic_systems(run_, keep=lambda oid: any(t in oid for t in ("projection-", "gram", "sampled-momentum", "metric-inverse")))
     try:
         from . import symla_systems
         symla_systems.c04_obligations(run_, tier)
